@@ -1,71 +1,104 @@
 #!/usr/bin/env python3
 """Runs every seeded change (seeded/<id>/patch.diff) and every catalogue mutation (mutations/*.patch) against all claimed
-checks on /repo (apply, run, restore) and writes seeded/STATUS.json + seeded/STATUS.md. Development / calibration tool: not a check."""
-import json, os, subprocess, sys, glob
+checks, each on its own scratch copy of /repo (so /repo itself is never touched and runs proceed in parallel), and
+writes seeded/STATUS.json + seeded/STATUS.md. Development / calibration tool: not a check.
+usage: tools/seed_status.py [name ...]   (no names: everything)"""
+import concurrent.futures
+import glob
+import json
+import os
+import shutil
+import subprocess
+import sys
+import tempfile
+
 V = "/verif"
 props = [c["property_id"] for c in json.load(open(V + "/MANIFEST.json"))["checks"]]
 only = sys.argv[1:]
 
 
-def run_patch(path):
-    r = subprocess.run(["git", "-C", "/repo", "apply", path], capture_output=True, text=True)
-    if r.returncode != 0:
-        return None
-    res = {}
+def run_patch(item):
+    kind, name, path = item
+    scratch = tempfile.mkdtemp(prefix="op2verif-status-")
     try:
+        dst = os.path.join(scratch, "repo")
+        os.makedirs(dst)
+        for sub in ("src", "include", "makefile"):
+            s = os.path.join("/repo", sub)
+            if os.path.isdir(s):
+                shutil.copytree(s, os.path.join(dst, sub))
+            else:
+                shutil.copy2(s, os.path.join(dst, sub))
+        a = subprocess.run(["git", "apply", "--whitespace=nowarn", path], cwd=dst, capture_output=True, text=True)
+        if a.returncode != 0:
+            return name, kind, None
+        res = {}
         for p in props:
-            o = subprocess.run([V + "/check", p, "--no-evidence"], capture_output=True, text=True, cwd=V)
+            o = subprocess.run([V + "/check", p, "--no-evidence", "--repo", dst], capture_output=True, text=True, cwd=V)
             if o.returncode == 1:
                 rules = sorted({l.split("[")[1].split("]")[0] for l in o.stdout.splitlines() if l.strip().startswith("violated:")})
                 res[p] = {"exit": 1, "rules": rules}
             elif o.returncode == 2:
                 res[p] = {"exit": 2, "rules": []}
+        return name, kind, res
     finally:
-        subprocess.run(["git", "-C", "/repo", "checkout", "--", "."])
-    return res
+        shutil.rmtree(scratch, ignore_errors=True)
+        for d in glob.glob(V + "/.cache/alt-*"):
+            try:
+                meta = json.load(open(os.path.join(d, "meta.json")))
+                if meta.get("repo", "").startswith(scratch):
+                    shutil.rmtree(d, ignore_errors=True)
+            except Exception:
+                pass
 
 
-status = {}
-items = []
-for d in sorted(glob.glob(V + "/seeded/C*-*")):
-    items.append(("seed", os.path.basename(d), d + "/patch.diff"))
-for f in sorted(glob.glob(V + "/mutations/*.patch")):
-    items.append(("mutation", os.path.basename(f)[:-6], f))
-old = {}
-if os.path.exists(V + "/seeded/STATUS.json"):
-    old = json.load(open(V + "/seeded/STATUS.json"))
-for kind, name, path in items:
-    if only and name not in only:
-        if name in old:
-            status[name] = old[name]
-        continue
-    res = run_patch(path)
-    if res is None:
-        status[name] = {"kind": kind, "applies": False}
-        print(name, "does not apply")
-        continue
-    det = sorted(p for p, r in res.items() if r["exit"] == 1)
-    brk = sorted(p for p, r in res.items() if r["exit"] == 2)
-    status[name] = {"kind": kind, "applies": True, "violation_reported_by": det, "analysis_broken_in": brk,
-                    "rules": {p: r["rules"] for p, r in res.items() if r["exit"] == 1}}
-    print(name, "->", det, ("broken:" + ",".join(brk)) if brk else "")
-    if kind == "seed":
-        mp = os.path.join(V, "seeded", name, "meta.json")
-        try:
-            m = json.load(open(mp))
-        except Exception:
-            m = {}
-        m["confirmed"] = open(os.path.join(V, "seeded", name, "confirm.log")).read().count("== ") >= 4 if os.path.exists(os.path.join(V, "seeded", name, "confirm.log")) else False
-        m["confirmed_by"] = "tools/confirm_seed.sh in a scratch worktree: baseline build + demo passes, patched build passes the 141 tests, patched demo fails"
-        m["checks_reporting_violation"] = det
-        m["checks_reporting_analysis_broken"] = brk
-        json.dump(m, open(mp, "w"), indent=1)
-json.dump(status, open(V + "/seeded/STATUS.json", "w"), indent=1)
-with open(V + "/seeded/STATUS.md", "w") as fh:
-    fh.write("| change | kind | applies | VIOLATION reported by | rules | analysis-broken in |\n|---|---|---|---|---|---|\n")
-    for n, s in sorted(status.items()):
-        if not s.get("applies"):
-            fh.write("| %s | %s | no (tree changed since it was recorded) | | | |\n" % (n, s["kind"]))
-            continue
-        rules = sorted({r for rs in s.get("rules", {}).values() for r in rs})
-        fh.write("| %s | %s | yes | %s | %s | %s |\n" % (n, s["kind"], " ".join(s["violation_reported_by"]) or "**none**", " ".join(rules), " ".join(s["analysis_broken_in"])))
+def main():
+    items = []
+    for d in sorted(glob.glob(V + "/seeded/C*-*")):
+        items.append(("seed", os.path.basename(d), d + "/patch.diff"))
+    for f in sorted(glob.glob(V + "/mutations/*.patch")):
+        items.append(("mutation", os.path.basename(f)[:-6], f))
+    status = {}
+    if os.path.exists(V + "/seeded/STATUS.json"):
+        status = json.load(open(V + "/seeded/STATUS.json"))
+    todo = [it for it in items if not only or it[1] in only]
+    with concurrent.futures.ThreadPoolExecutor(max_workers=6) as ex:
+        for name, kind, res in ex.map(run_patch, todo):
+            if res is None:
+                status[name] = {"kind": kind, "applies": False}
+                print(name, "does not apply", flush=True)
+                continue
+            det = sorted(p for p, r in res.items() if r["exit"] == 1)
+            brk = sorted(p for p, r in res.items() if r["exit"] == 2)
+            status[name] = {"kind": kind, "applies": True, "violation_reported_by": det, "analysis_broken_in": brk,
+                            "rules": {p: r["rules"] for p, r in res.items() if r["exit"] == 1}}
+            print(name, "->", det, ("broken:" + ",".join(brk)) if brk else "", flush=True)
+            if kind == "seed":
+                mp = os.path.join(V, "seeded", name, "meta.json")
+                try:
+                    m = json.load(open(mp))
+                except Exception:
+                    m = {}
+                cl = os.path.join(V, "seeded", name, "confirm.log")
+                m["confirmed"] = os.path.exists(cl) and open(cl).read().count("== ") >= 4
+                m["confirmed_by"] = ("tools/confirm_seed.sh in a scratch worktree: baseline build + demo passes, patched build "
+                                     "passes the 141 tests, patched demo fails")
+                m["checks_reporting_violation"] = det
+                m["checks_reporting_analysis_broken"] = brk
+                json.dump(m, open(mp, "w"), indent=1)
+    names = {it[1] for it in items}
+    status = {k: v for k, v in status.items() if k in names}
+    json.dump(status, open(V + "/seeded/STATUS.json", "w"), indent=1, sort_keys=True)
+    with open(V + "/seeded/STATUS.md", "w") as fh:
+        fh.write("| change | kind | applies | VIOLATION reported by | rules | analysis-broken in |\n|---|---|---|---|---|---|\n")
+        for n, s in sorted(status.items()):
+            if not s.get("applies"):
+                fh.write("| %s | %s | no (tree changed since it was recorded) | | | |\n" % (n, s["kind"]))
+                continue
+            rules = sorted({r for rs in s.get("rules", {}).values() for r in rs})
+            fh.write("| %s | %s | yes | %s | %s | %s |\n" % (n, s["kind"], " ".join(s["violation_reported_by"]) or "**none**",
+                                                          " ".join(rules), " ".join(s["analysis_broken_in"])))
+
+
+if __name__ == "__main__":
+    main()
